@@ -806,7 +806,8 @@ func (self *AofChannel) Push(dbId uint8, lock *Lock, commandType uint8, lockComm
 		aofLock.Count = unLockCommand.Count
 		aofLock.Rcount = unLockCommand.Rcount
 	}
-	if lockCommand.TimeoutFlag&protocol.TIMEOUT_FLAG_REQUIRE_ACKED != 0 && (commandType != protocol.COMMAND_LOCK || lockCommand.Expried > 0) {
+	if lockCommand.TimeoutFlag&protocol.TIMEOUT_FLAG_REQUIRE_ACKED != 0 && (commandType != protocol.COMMAND_LOCK || lockCommand.Expried > 0) &&
+		(commandType != protocol.COMMAND_LOCK || aofFlag&AOF_FLAG_UPDATED == 0 || lockCommand.Flag&protocol.LOCK_FLAG_UPDATE_WHEN_LOCKED != 0) {
 		aofLock.AofFlag |= AOF_FLAG_REQUIRE_ACKED
 		aofLock.lock = lock
 	} else {
